@@ -115,30 +115,7 @@ def run(ck, ix, tier):
     ck.check(any("contextmanager" in norm(d) for d in fi.node.decorator_list), "G-PAIR", "context|is-contextmanager", fi.loc(),
              "@contextmanager", "context() is no longer a @contextmanager")
 
-    # with_context
-    fi = ix.func(CR, "GenericContextRegistry.with_context")
-    ck.analysed(fi)
-    # the wrapper, by role: a function nested in with_context that calls the decorated function, i.e. a parameter of
-    # the function it is nested in (the decorator)
-    def decorated_calls(f):
-        outer = getattr(f, "parent", None)
-        if outer is None or outer is fi or not isinstance(getattr(outer, "node", None), (ast.FunctionDef, ast.AsyncFunctionDef)):
-            return []
-        ps = {a.arg for a in outer.node.args.args + outer.node.args.posonlyargs + outer.node.args.kwonlyargs}
-        return [c for c in walk_local(f.node) if isinstance(c, ast.Call) and isinstance(c.func, ast.Name) and c.func.id in ps]
-    wr = [f for f in fi.module.all_functions if f.qualname.startswith(fi.qualname) and f is not fi and isinstance(f.node, (ast.FunctionDef, ast.AsyncFunctionDef)) and decorated_calls(f)]
-    ck.floor("G-PAIR", len(wr), 1, "wrapper in with_context")
-    for w in wr:
-        withs = [x for x in walk_local(w.node) if isinstance(x, ast.With) and any(isinstance(i.context_expr, ast.Call) and call_name(i.context_expr) == "context" for i in x.items)]
-        calls = decorated_calls(w)
-        inside = all(any(c is y for x in withs for y in ast.walk(x)) for c in calls)
-        ck.check(bool(withs) and bool(calls) and inside, "G-PAIR", "with_context|call-inside-with-context", w.loc(),
-                 "the decorated function runs inside `with self.context(...)`", "the decorated function is called outside the `with self.context(...)` block")
-        for x in withs:
-            c = x.items[0].context_expr
-            ck.check(len(c.args) >= 1 and norm(c.args[0]) == "name" and any(k.arg is None and norm(k.value) == "kwargs" for k in c.keywords),
-                     "G-PROV", "with_context|decorator-arguments-forwarded", w.loc(c),
-                     "context name and parameters of the decorator are used", f"`{norm(c)}` does not activate the decorator's context name with its kwargs")
+    with_context_rule(ck, ix)
 
     # ------------------------------------------------------------ (d) disable_contexts
     fi = ix.func(CR, "GenericContextRegistry.disable_contexts")
@@ -194,3 +171,47 @@ def run(ck, ix, tier):
     from .C11 import context_copy_rule
     context_copy_rule(ck, ix)
     return EXPLANATION
+
+
+def with_context_rule(ck, ix):
+    """with_context: the decorated function runs inside `with self.context(<decorator's name>, **<decorator's kwargs>)`
+    and receives the wrapper's own arguments (shared by C11 and C12)."""
+    # with_context
+    fi = ix.func(CR, "GenericContextRegistry.with_context")
+    ck.analysed(fi)
+    # the wrapper, by role: a function nested in with_context that calls the decorated function, i.e. a parameter of
+    # the function it is nested in (the decorator)
+    def decorated_calls(f):
+        outer = getattr(f, "parent", None)
+        if outer is None or outer is fi or not isinstance(getattr(outer, "node", None), (ast.FunctionDef, ast.AsyncFunctionDef)):
+            return []
+        ps = {a.arg for a in outer.node.args.args + outer.node.args.posonlyargs + outer.node.args.kwonlyargs}
+        return [c for c in walk_local(f.node) if isinstance(c, ast.Call) and isinstance(c.func, ast.Name) and c.func.id in ps]
+    wr = [f for f in fi.module.all_functions if f.qualname.startswith(fi.qualname) and f is not fi and isinstance(f.node, (ast.FunctionDef, ast.AsyncFunctionDef)) and decorated_calls(f)]
+    ck.floor("G-PAIR", len(wr), 1, "wrapper in with_context")
+    for w in wr:
+        withs = [x for x in walk_local(w.node) if isinstance(x, ast.With) and any(isinstance(i.context_expr, ast.Call) and call_name(i.context_expr) == "context" for i in x.items)]
+        calls = decorated_calls(w)
+        inside = all(any(c is y for x in withs for y in ast.walk(x)) for c in calls)
+        ck.check(bool(withs) and bool(calls) and inside, "G-PAIR", "with_context|call-inside-with-context", w.loc(),
+                 "the decorated function runs inside `with self.context(...)`", "the decorated function is called outside the `with self.context(...)` block")
+        for x in withs:
+            c = x.items[0].context_expr
+            # by scope: the name and the ** mapping handed to self.context(...) are the parameters of with_context itself,
+            # i.e. free in the wrapper and in the decorator (a wrapper parameter of the same name would shadow them)
+            dn, dk = fi.node.args.args[1].arg, (fi.node.args.kwarg.arg if fi.node.args.kwarg else None)
+            shadow = set()
+            f_ = w
+            while f_ is not None and f_ is not fi:
+                a_ = f_.node.args
+                shadow |= {x.arg for x in a_.args + a_.posonlyargs + a_.kwonlyargs} | ({a_.vararg.arg} if a_.vararg else set()) | ({a_.kwarg.arg} if a_.kwarg else set())
+                shadow |= {x.id for x in walk_local(f_.node) if isinstance(x, ast.Name) and isinstance(x.ctx, ast.Store)}
+                f_ = getattr(f_, "parent", None)
+            okd = dk is not None and len(c.args) >= 1 and norm(c.args[0]) == dn and any(k.arg is None and norm(k.value) == dk for k in c.keywords) and dn not in shadow and dk not in shadow
+            ck.check(okd, "G-PROV", "with_context|decorator-arguments-forwarded", w.loc(c),
+                     "context name and parameters of the decorator are used", f"`{norm(c)}` does not activate the decorator's context name with the decorator's own parameters (a name bound in the wrapper shadows them?)")
+        wa = w.node.args
+        for c in calls:
+            okc = (wa.vararg is None or any(isinstance(a_, ast.Starred) and norm(a_.value) == wa.vararg.arg for a_ in c.args)) and (wa.kwarg is None or any(k.arg is None and norm(k.value) == wa.kwarg.arg for k in c.keywords))
+            ck.check(okc, "G-PROV", "with_context|call-arguments-forwarded", w.loc(c), "the decorated function receives the wrapper's own arguments",
+                     f"`{norm(c)}` does not forward the wrapper's own positional and keyword arguments")
